@@ -138,6 +138,13 @@ MISSED = {
     "C18-O": "the manual clock only moved between operations, never between two readings inside one",
     "C18-P": "thread-local time-source injections were never nested",
     "C19-O": "lying values always wrote some other unit, never no unit",
+    # round 9
+    "C01-R": "the scripted stream always accepted the in-band report entry",
+    "C04-Q": "every flush request of a batch was awaited; none was abandoned",
+    "C06-R": "flush guards were always held and dropped by the harness itself, never by a slot guard",
+    "C11-R": "every source wrote one observation per metric() call",
+    "C16-Q": "the scripted stream always accepted the in-band report entry",
+    "C16-R": "hard errors came in eight kinds, InvalidInput not among them",
 }
 
 
